@@ -201,7 +201,7 @@ theorem frame_sound (F : Frame Core ObjK View) (admCore : Core → Bool) (admU :
         | inr n =>
           have hfk : (FK.obj == FK.obj) = true := rfl
           simp only [verdict, ops, rel, build, refOf, hfk, if_true, Bool.or_eq_false_iff] at hv
-          have hn := not_read F ok hcore (by simpa using hv.1)
+          have hn := not_read F ok hcore (by simpa using hv.1.2)
           simp only [storeAfter, ops, storeF]
           apply build_upd_unread
           · intro o ho
@@ -214,7 +214,10 @@ theorem frame_sound (F : Frame Core ObjK View) (admCore : Core → Bool) (admU :
         rcases Option.eq_none_or_eq_some (s.objs key) with ho | ⟨o, ho⟩
         · simp [ho]
         · simp only [verdict, ops, rel, build, refOf, ho, Option.map_some, Option.isNone_some] at hv
-          have hro : F.isRef s.core key o = false := by simpa using hv
+          have hro : F.isRef s.core key o = false := by
+            have := hv
+            simp at this
+            exact this.2
           simp only [ho, storeF, Option.map_some, Option.isNone_some, Bool.false_eq_true, if_false]
           apply build_upd_unread
           · intro o' ho'; rw [ho] at ho'; cases ho'; exact not_read F ok hcore hro
@@ -274,6 +277,22 @@ theorem ns_ok : FrameOK nsFrame (fun _ => true) (fun _ _ => true) where
   reads_isRef _ _ _ _ hr := hr
   watch_ok o n _ hw := by
     have : o = n := by simpa [nsFrame] using hw
+    subst this; exact eqv_refl _ _
+
+theorem np_ok : FrameOK nginxProxyFrame (fun _ => true) (fun _ _ => true) where
+  reads_isRef _ _ _ _ hr := hr
+  watch_ok o n _ hw := by
+    have : o = n := by simpa [nginxProxyFrame] using hw
+    subst this; exact eqv_refl _ _
+
+/-- NGF policies: in the graph (`processPolicies`: winner ∧ some targetRef resolves) ⇒ relevant (some targetRef
+resolves); the controller's watch predicate delivers every spec change. -/
+theorem policy_ok : FrameOK policyFrame (fun _ => true) (fun _ _ => true) where
+  reads_isRef c _ p _ hr := by
+    simp only [policyFrame, policyInGraph, Bool.and_eq_true] at hr
+    exact hr.2
+  watch_ok o n _ hw := by
+    have : o = n := by simpa [policyFrame] using hw
     subst this; exact eqv_refl _ _
 
 theorem byName_ok {Core : Type} (refs : Core → List NN) : FrameOK (byName refs) (fun _ => true) (fun _ _ => true) where
